@@ -78,6 +78,12 @@ const (
 // and the panic escapes Decode.
 const keyCuePanic = "cue-eval-panic"
 
+// The TOML decoder hands the document to pelletier/go-toml v1, which panics
+// (reflect.Value.Convert: string -> K) when a table is decoded into a map whose
+// key kind is not string (map[int]string, map[uintptr]string, map[Handle]int);
+// the panic escapes toml.Decoder.Decode.
+const keyTomlMapKey = "toml-nonstring-map-key-panic"
+
 // A slice or array whose element struct type has an unexported field: the
 // transformer leaves an empty mapping entry for the unexported field
 // (TranslateType `continue`s) and ReverseTranslate then calls Unmangle with no
@@ -95,7 +101,7 @@ const keyPtrPtrStruct = "double-pointer-struct-panic"
 // `x: ["a"]*18446744073709551615` (it would also never return).
 const keyMemory = "memory-blowup"
 
-var allKeys = []string{keyCuePanic, keyMemory, "hang", keyElemUnexported, keyPtrPtrStruct, keyNamedScalar, keyNamedElem, keyPtrCollection, keyNestedCollection, keyFlagDoublePtr, keyFlagTextSlice, keyPflagDoublePtr, keyFlagNamedComplex}
+var allKeys = []string{keyCuePanic, keyTomlMapKey, keyMemory, "hang", keyElemUnexported, keyPtrPtrStruct, keyNamedScalar, keyNamedElem, keyPtrCollection, keyNestedCollection, keyFlagDoublePtr, keyFlagTextSlice, keyPflagDoublePtr, keyFlagNamedComplex}
 
 var (
 	knownOnce sync.Once
@@ -256,6 +262,9 @@ func classifyPanic(p *panicInfo) string {
 	}
 	if strings.Contains(p.msg, "reflect.Value.Convert: value of type") && strings.Contains(p.msg, "cannot be converted to type *") && strings.Contains(p.stack, "sources/pflag.(*Set).Value") {
 		return keyPflagDoublePtr
+	}
+	if strings.Contains(p.msg, "reflect.Value.Convert: value of type string cannot be converted to type") && strings.Contains(p.stack, "pelletier/go-toml") {
+		return keyTomlMapKey
 	}
 	if strings.Contains(p.stack, "cuelang.org/go") {
 		return keyCuePanic
